@@ -144,6 +144,17 @@ def one_case(sess, r, rng, ci, canon, spelled, uri, transport, repl, host, port,
             c('set_%s 0 %s earlier-user earlier-key' % ('aggr' if api == 'aggr' else 'ext', prior))
         q = c('set_%s 0 %s %s %s' % ('aggr' if api == 'aggr' else 'ext', uri, user, key))
         setrc = q.rc
+        if setrc == 0 and ci % 4 == 2:
+            # a later, REFUSED setting (no credentials anywhere / no port for the TCP transport) must leave no trace: the request still goes where
+            # the accepted URI points, with its credentials
+            bad, bu, bk = rng.choice([('ksi+tcp://refused.example:5555', '-', '-'), ('KSI+TCP://Refused.Example:5556', '-', '-'), ('ksi+tcp://refused.example', 'ruser', 'rkey'), ('ksi+tcp://refused.example:5557', 'ruser', '-')])
+            q2 = c('set_%s 0 %s %s %s' % ('aggr' if api == 'aggr' else 'ext', bad, bu, bk))
+            if q2.rc == 0:
+                c('set_%s 0 %s %s %s' % ('aggr' if api == 'aggr' else 'ext', uri, user, key))      # it was accepted after all: not the case studied here
+                r.count('intermediate_setting_accepted')
+            else:
+                r.count('intermediate_setting_refused')
+                replay = 'then-refused=%s ' % bad + replay
         if setrc == 0:
             if api == 'aggr':
                 c('sign 0 0 %s' % R.H(1, b'c20').hex())
